@@ -809,7 +809,12 @@ impl PaZipCompressor {
         let remaining = &input[pos..];
         let max_length = remaining.len().min(256); // PA-Zip max pattern length
         
-        self.dictionary.find_longest_match(remaining, 0, max_length)
+        // find_longest_match does not honour max_length; a prefix of a match is a match, and the frame
+        // stores the length in 16 bits
+        Ok(self.dictionary.find_longest_match(remaining, 0, max_length)?.map(|mut m| {
+            m.length = m.length.min(max_length);
+            m
+        }))
     }
     
     /// Step 3: Calculate costs for each possible compression strategy
